@@ -361,7 +361,12 @@ class Run:
         """consume the current byte.  The do-actions of the enclosing foreach statements belong to the consumption: if one of them
         raises, the byte is the offending byte and is not consumed."""
         b = self.peek()
+        had_pending = bool(self.pending)
         self.pending = []
+        if self.foreach and had_pending:
+            # actions performed since the previous byte precede this byte's do-actions in program order; the compiled machine puts the
+            # do-actions first on the transition (known finding F-01s)
+            self.tags.add("do-actions-before-pending-actions")
         if self.foreach and self.provisional:
             # the match being extended could already have ended before this byte: non-strict assignments that follow it may have
             # been performed by then (known finding F-01f), which the do-actions of this foreach can observe
